@@ -30,6 +30,13 @@ def F(name, *args):
     return ("fn", name, list(args))
 
 
+def _sum(terms):
+    e = terms[0]
+    for t in terms[1:]:
+        e = ("bin", "+", e, t)
+    return e
+
+
 NUM_EXPRS = [
     ("INT", F("INT", ("bin", "/", C, n(2)))),
     ("VAL", F("VAL", ("str", "12"))),
@@ -70,6 +77,15 @@ NUM_EXPRS = [
     ("POINT(BUTTON(0),BUTTON(0))", F("POINT", F("BUTTON", n(0)), F("BUTTON", n(0)))),
     ("INT(PEEK)-INT(PEEK)", ("bin", "-", F("INT", F("PEEK", n(100))), F("INT", F("PEEK", n(100))))),
 ]
+
+
+# many converted calls in ONE statement (more temporaries than any listing in the test suite needs: two-digit numbering)
+NUM_EXPRS += [
+    ("12xINT", _sum([F("INT", ("bin", "+", A, n(k))) for k in range(12)])),
+    ("13xBUTTON", _sum([("bin", "*", F("BUTTON", n(k % 4)), n(k + 1)) for k in range(13)])),
+    ("11xLEN(STR$)", _sum([F("LEN", F("STR$", n(10 ** (k % 4)))) for k in range(11)])),
+    ("25xJOYSTK", _sum([F("JOYSTK", n(k % 4)) for k in range(25)])),
+]
 STR_EXPRS = [
     ("STR$", F("STR$", A)),
     ("HEX$", F("HEX$", n(255))),
@@ -86,6 +102,8 @@ STR_EXPRS = [
     ("STR$+HEX$", ("bin", "+", F("STR$", n(1)), F("HEX$", n(2)))),
     ("INKEY$+INKEY$", ("bin", "+", F("INKEY$"), F("INKEY$"))),
     ("STR$(BUTTON)+STR$(BUTTON)", ("bin", "+", F("STR$", F("BUTTON", n(0))), F("STR$", F("BUTTON", n(1))))),
+    ("12xINKEY$", _sum([F("INKEY$") for _ in range(12)])),
+    ("11xHEX$", _sum([F("HEX$", n(k + 10)) for k in range(11)])),
 ]
 
 SETUP = [("let", A, n(3), False), ("let", B, n(5), False), ("let", C, n(7), False), ("let", ("var", "A$"), ("str", "HELLO"), False)]
@@ -96,7 +114,7 @@ RS = ("var", "R$")
 NUM_CARRIERS = ["sub_both", "sub_both2", "assign", "assign_elem", "sub_rhs", "sub_lhs", "if_noelse", "if_else", "if_elif_cond", "if_arm", "for_start",
                 "for_limit", "for_step", "print_item", "print_at_pos", "on_sel", "dev_cls", "dev_hline", "dev_sound",
                 "dev_hcircle", "dev_poke", "read_sub", "input_sub", "loop_body", "jump_target", "two_statements", "width",
-                "assign_raw", "assign_elem_raw", "print_raw", "print_item_raw", "print_at_raw", "print_last_raw"]
+                "assign_raw", "assign_elem_raw", "print_raw", "print_item_raw", "print_at_raw", "print_last_raw", "print_many"]
 STR_CARRIERS = ["assign_s", "assign_elem_s", "print_item_s", "print_at_item_s", "if_s_noelse", "if_s_else", "dev_hprint",
                 "dev_hdraw", "loop_body_s", "len_assign"]
 
@@ -104,6 +122,12 @@ STR_CARRIERS = ["assign_s", "assign_elem_s", "print_item_s", "print_at_item_s", 
 def carrier(name, e):
     """-> list of program lines (after the setup lines)"""
     one = lambda st: [(30, st)]
+    if name == "print_many":
+        # a dozen numeric items: each goes through the number formatter, each needs its own temporary
+        items = []
+        for k in range(12):
+            items += [("e", e if k == 5 else [A, B, C, ("arr", "X", [n(k)])][k % 4]), ("sep", ";")]
+        return one([("print", items[:-1], None)])
     if name == "assign_raw":
         return one([("let", R, e, False)])
     if name == "assign_elem_raw":
@@ -351,7 +375,7 @@ def run_case(case):
     detail = {"source": "\n".join(text.split("\n")[3:])[:400], "emitted": tail[-700:], "nesting": ename, "carrier": cname}
     cls = "IF-ELSE" if cname in ("if_else", "if_elif_cond", "if_s_else") else (
         "READ-INPUT-subscript" if cname in ("read_sub", "input_sub") else cname)
-    if cname in ("print_item", "print_raw", "print_item_raw", "print_last_raw", "print_at_raw") and e[0] in ("bin", "un", "par"):
+    if cname in ("print_item", "print_raw", "print_item_raw", "print_last_raw", "print_at_raw", "print_many") and e[0] in ("bin", "un", "par"):
         cls = "PRINT-item-compound-numeric"
     # static monitor
     bad = static_tmp_check(conv["out"])
